@@ -130,6 +130,47 @@ def isolation_work(item):
     try:
         base0 = oracle.build(s, data)
         names = list(base0.nodes)
+        # several trees restored from ONE dictionary (particles hand their tree over in dictionary form, more than once)
+        for via in ("dict", "holder"):
+            if via == "dict":
+                d = base0.to_dict()
+                mk = lambda: Tree.from_dict(d)
+            else:
+                from phyclone.smc.swarm import TreeHolder
+
+                holder = TreeHolder(base0, td, None)
+                mk = lambda: holder.tree
+            A, B = mk(), mk()
+            ctx = {"tree": oracle.fmt_state(s), "restored_via": via}
+            live_names = ["a second tree restored from the same dictionary", "the original tree"]
+            live = [B, base0]
+            before = snapshot(live)
+            for g_ in list(A.nodes):
+                A.add_data_point_to_node(spare, g_)
+                res["n"] += 1
+                watch(live_names, live, before, dict(ctx, edit="add a data point to clone %r of the first restored tree" % (g_,)))
+                A.remove_data_point_from_node(spare, g_)
+                if len(A._data[g_]) > 1:
+                    dp = A._data[g_][0]
+                    A.remove_data_point_from_node(dp, g_)
+                    A.add_data_point_to_outliers(dp)
+                    res["n"] += 1
+                    watch(live_names, live, before, dict(ctx, edit="move a data point of clone %r of the first restored tree to the outliers" % (g_,)))
+                    A.remove_data_point_from_outliers(dp)
+                    A.add_data_point_to_node(dp, g_)
+            A.add_data_point_to_outliers(spare)
+            res["n"] += 1
+            watch(live_names, live, before, dict(ctx, edit="add an outlier to the first restored tree"))
+            C = mk()
+            res["n"] += 1
+            if oracle.abstract(C) != s:
+                problem("a tree restored later from the same dictionary is not the tree that was stored", dict(ctx, edit="in-place edits of the first restored tree"))
+            else:
+                fp = judge(C)
+                if fp:
+                    problem("a tree restored later from the same dictionary: %s" % fp[0], ctx)
+            if len(res["problems"]) >= 3:
+                return res
         for v in names:
             probe = base0.copy()
             sub_probe = probe.get_subtree(v)
